@@ -155,9 +155,17 @@ static void
 lg_ret(Run *r, int ret, const CErr *err, int null_err)
 {
     lg8(r, ret == 0 ? 0 : (ret == -1 ? 1 : 2));
-    if (null_err) {
+    if (null_err == 1) {
         /* the hook passed err == NULL (as the sample hook does): nothing to retrieve */
         lg8(r, 0xfe);
+        return;
+    }
+    if (null_err == 2) {
+        /* a failure with no native counterpart (text that is not UTF-8): a description must be
+         * retrievable, its wording is the implementation's business */
+        const char *d = (ret == -1 && err) ? r->t->error_description(err) : NULL;
+        lg8(r, 0xfd);
+        lg8(r, (d != NULL && d[0] != 0) ? 1 : 0);
         return;
     }
     if (ret == -1) {
@@ -361,10 +369,10 @@ cdrv_run(const FnTable *t, ParsedPacket *pp, const uint8_t *script, size_t scrip
             memcpy(f.buf, p, len);
             f.buf[len] = 0;
             switch (sec) {
-            case 0: ret = t->add_to_question(pp, ne ? NULL : &err, (const char *) f.buf); break;
-            case 1: ret = t->add_to_answer(pp, ne ? NULL : &err, (const char *) f.buf); break;
-            case 2: ret = t->add_to_nameservers(pp, ne ? NULL : &err, (const char *) f.buf); break;
-            default: ret = t->add_to_additional(pp, ne ? NULL : &err, (const char *) f.buf); break;
+            case 0: ret = t->add_to_question(pp, ne == 1 ? NULL : &err, (const char *) f.buf); break;
+            case 1: ret = t->add_to_answer(pp, ne == 1 ? NULL : &err, (const char *) f.buf); break;
+            case 2: ret = t->add_to_nameservers(pp, ne == 1 ? NULL : &err, (const char *) f.buf); break;
+            default: ret = t->add_to_additional(pp, ne == 1 ? NULL : &err, (const char *) f.buf); break;
             }
             lg8(&r, 8);
             lg_ret(&r, ret, err, ne);
